@@ -35,3 +35,7 @@ Proof. exact mask_names_is_filter. Qed.
 Theorem c01_ssh1_mask_names_spec : forall mask tbl i x,
   In x (mask_names mask i tbl) <-> exists j, nth_error tbl j = Some x /\ Z.testbit mask (Z.of_nat (i + j)) = true.
 Proof. exact mask_names_spec. Qed.
+
+(* the name shown in the text report is the advertised one with non-printable characters replaced (fix 331ebe3): printable names are shown unchanged *)
+Theorem c01_display_printable : forall s, forallb (fun c => negb (is_control c)) (chars s) = true -> display s = s.
+Proof. exact display_printable. Qed.
